@@ -65,3 +65,37 @@ Proof. vm_compute. auto. Qed.
 Lemma witnesses_outside_guard :
   is_fresh w_shared = false /\ is_fresh w_stale = false /\ is_fresh w_loop = false /\ is_fresh w_remove = false.
 Proof. vm_compute. auto. Qed.
+
+(* what a _resolve_*_arg call site bakes in is the run-time value of the argument in EVERY run-time environment:
+   the folded expression is name-free, hence closed *)
+Lemma agrees_nil rho : agrees [] rho.
+Proof. intros x v H. cbn in H. discriminate. Qed.
+Lemma site_numeric_sound : forall c e rho z,
+  binds_safe_name c = false -> unshadowed rho -> in_guard [] e = true ->
+  resolve_numeric c e = Folded z ->
+  exists v, peval rho e = Ok v /\
+            match v with VBool b => z = (if b then 1 else 0) | VInt n => z = n | VFloat q => z = qtrunc q | _ => False end.
+Proof.
+  intros c e rho z B U G H. unfold resolve_numeric in H.
+  destruct (has_name e) eqn:HN; [discriminate|].
+  rewrite (namefree_closed e c HN B) in H. unfold catch_all in H.
+  destruct (eval_const [] e) as [v| |] eqn:E; try discriminate.
+  exists v. split; [eapply eval_const_sound; [apply agrees_nil|exact U|exact G|exact E]|].
+  destruct v; inversion H; subst; reflexivity.
+Qed.
+Lemma site_bool_sound : forall c e rho b,
+  binds_safe_name c = false -> unshadowed rho -> in_guard [] e = true ->
+  resolve_bool c e = Folded b ->
+  exists v, peval rho e = Ok v /\ is_numv v = true /\ b = truthy v.
+Proof.
+  intros c e rho b B U G H. unfold resolve_bool in H.
+  destruct (has_name e) eqn:HN; [discriminate|].
+  rewrite (namefree_closed e c HN B) in H. unfold catch_all in H.
+  destruct (eval_const [] e) as [v| |] eqn:E; try discriminate.
+  exists v. split; [eapply eval_const_sound; [apply agrees_nil|exact U|exact G|exact E]|].
+  destruct v; inversion H; subst; split; reflexivity.
+Qed.
+Lemma site_sound_example :
+  resolve_numeric [([120], Known (VInt 9))] (EBin Mult (EInt 250) (EBin Add (EInt 1) (EInt 1))) = Folded 500 /\
+  resolve_numeric [([120], Known (VInt 9))] (EBin Mult (EName [120]) (EInt 2)) = Fallback.
+Proof. vm_compute. auto. Qed.
